@@ -13,6 +13,12 @@ later steps, for both estimators, with the documented SMM range-rate pre-weighti
 A second family of items drives the same histories through the real ``EstimateAgent`` (serial ``update`` and the
 ``EstPredictRegistration`` / ``EstUpdateRegistration`` job path over the in-process fake ray) to check what the agent
 is handed back on closure.
+A magnitude family repeats the exploration at the scales of real orbit estimation (state vectors of LEO / MEO / GEO
+radius in km, model covariances of 10 cm .. 1 km position sigma): after predict, forecast and update the combined
+moments of the real filter are compared with the EXACT (rational arithmetic) moment-matched mixture of its own models,
+with an element-wise allowance derived from eps * (|P| + spread^2) * (number of models) - the combined PREDICTED
+covariance that ``EstPredictRegistration`` publishes as the agent's covariance included.  Every node of the other
+families carries the same rounding-level comparison against the centred float64 mixture.
 """
 from __future__ import annotations
 
@@ -64,7 +70,23 @@ RULE = (
     "directly and through the EstimateAgent (serial and job path), and the set index advances by 3 mod 7 per step "
     "so that every set also occurs at every later step; on the opened SMM filter StaticMultipleModel._preWeight is "
     "additionally probed on a pickled copy (one weight per model, documented values; these two probe cases count "
-    "as non-trivial iff the set holds >= 1 range-rate observation). A tree node is non-trivial iff in "
+    "as non-trivial iff the set holds >= 1 range-rate observation). A third family (mag) is the complete lattice "
+    "estimator SMM|GPB1 x orbit regime {LEO 7000, MEO 26560, GEO 42164 km; circular speed; seed-phased direction "
+    "with three non-zero components} x model position sigma {10 cm, 1 m, 10 m, 1 km} (velocity sigma 1e-3/s of it, "
+    "process / measurement noise scaled along) x {2, 3, 5} models; inside each, the hypothesis layouts {same, 1s, "
+    "30s, vel1s = 1 sigma apart through a delta-v} with the prior probabilities {uniform, graded, one model 0.9}, "
+    "the covariance variant {same, scaled} and the predict path {in place, prediction result object} rotating over "
+    "the lattice; the real filter (assembled by hand as initialize() does, real UKF models) runs EVERY history over "
+    "{A, M, G, no observation} (first step observed) to depth 2 (quick) / 3 (thorough) or closure, and AFTER predict, "
+    "after forecast on a copy (step 2) and after update (and on the filter handed back at closure) pred_x / pred_p / "
+    "est_x / est_p are compared with the exact rational-arithmetic mixture of the filter's own models and "
+    "probabilities, element by element, allowance 4 (n+2) eps sum_k w_k (|P_k| + |d_k d_k'|) + 4 ((n+1) eps)^2 "
+    "S S' (S = sum_k |w_k x_k|), symmetric and lambda_min >= min(0, lambda_min of the exact mixture) - ||allowance||_F "
+    "- 32 eps ||P||_F; probabilities against Bayes' rule from the models' own innovations. A magnitude case is "
+    "non-trivial iff eps x_i^2 of the largest state component is >= 100 x the allowance of P_ii (a one-pass "
+    "E[xx'] - E[x]E[x]' evaluation would be exposed). In the other families every predict / update / forecast node "
+    "additionally compares the combined moments with the centred float64 mixture within twice that allowance "
+    "(subchecks */mixture_rounding, mixture/rounding). A tree node is non-trivial iff in "
     "that update a model likelihood underflowed to zero or the total mass fell below 1e-15 (documented reset), or a "
     "model was pruned, or estimation closed; every elemental check at such a node counts; distinct by construction "
     "(different history or configuration). states = distinct (model ids, probabilities to 11 digits, time, flags) "
@@ -89,6 +111,10 @@ ASSUMPTIONS = [
     "counted separately in the outcomes (reset_representable_mass)",
     "for GPB1 (which merges all models every step by construction) 'the surviving model' on closure is the merged "
     "estimate (moment-matched mixture)",
+    "magnitude family: the per-model Kalman conformance is NOT re-derived there (the unscented filter's own "
+    "rounding, eps |x| / sigma, is the subject of C06): the reference takes the real models' moments, innovations "
+    "and innovation covariances as given and checks only how the adaptive filter combines them; Python's "
+    "fractions.Fraction is the exact arithmetic",
     "SMM pre-weighting |1 - e_i/sum(e)| (left unnormalised) is taken as the documented prior of the first update; "
     "with several observations that carry a range rate the LAST one of the list decides (source comment: 'only the "
     "last obs is included'), observations without a range rate are skipped; a measured range rate of exactly zero "
@@ -123,6 +149,17 @@ PERCENTAGES_T = [0.6, 0.997, 0.4]
 NMODELS = [2, 3, 5, 30]
 MIX_RATIOS = [1.5]
 MIX_RATIOS_T = [1.5, 20.0]
+
+# third lattice family ("mag" configurations): the same machinery at the magnitudes of real orbit estimation.  State
+# vectors of orbital radius (km, km/s) and model covariances of the stated 1-sigma position accuracy (the velocity
+# sigma is 1e-3 / s of it, process and measurement noise scale along), so that |x|^2 / |P| runs from 5e7 to 2e17
+MAG_RADII_KM = {"leo": 7000.0, "meo": 26560.0, "geo": 42164.0}
+MAG_SIGMAS_KM = [1e-4, 1e-3, 1e-2, 1.0]  # 10 cm, 1 m, 10 m, 1 km
+MAG_NMODELS = [2, 3, 5]
+MAG_LAYOUTS = ["same", "1s", "30s", "vel1s"]  # vel1s: hypotheses 1 sigma apart through their VELOCITY (a delta-v)
+MAG_WEIGHTS = ["uniform", "graded", "dominant"]  # probabilities the filter holds before its first predict
+MAG_SYMBOLS = ["A", "M", "G", "0"]
+MU_EARTH = 398600.4418
 
 HARNESS = {"hyp": None, "n": None}
 
@@ -281,21 +318,49 @@ class System:
         self.d = np.array([math.cos(a) * math.cos(b), math.sin(a) * math.cos(b), math.sin(b)])
         self.f = np.eye(6)
         self.f[:3, 3:] = DT * np.eye(3)
-        p0 = np.diag([1.0, 1.5, 0.8, 1e-4, 2e-4, 1.5e-4])
-        p0[0, 1] = p0[1, 0] = 0.2
-        p0[1, 2] = p0[2, 1] = -0.15
-        for i in range(3):
-            p0[i, 3 + i] = p0[3 + i, i] = 2e-3
-        self.p0 = p0
-        self.q = np.diag([0.02, 0.02, 0.02, 1e-6, 1e-6, 1e-6])
-        self.x0 = np.array([120.0, -80.0, 60.0, 0.01, 0.02, -0.015]) + 0.01 * (seed % 101) * np.array(
-            [1.0, -1.0, 0.5, 0.0, 0.0, 0.0])
+        mag = cfg.get("mag")
+        self.s = 1.0  # length unit of the covariances / noises / biases (km); 1 for the unit-magnitude families
+        if not mag:
+            p0 = np.diag([1.0, 1.5, 0.8, 1e-4, 2e-4, 1.5e-4])
+            p0[0, 1] = p0[1, 0] = 0.2
+            p0[1, 2] = p0[2, 1] = -0.15
+            for i in range(3):
+                p0[i, 3 + i] = p0[3 + i, i] = 2e-3
+            self.p0 = p0
+            self.q = np.diag([0.02, 0.02, 0.02, 1e-6, 1e-6, 1e-6])
+            self.x0 = np.array([120.0, -80.0, 60.0, 0.01, 0.02, -0.015]) + 0.01 * (seed % 101) * np.array(
+                [1.0, -1.0, 0.5, 0.0, 0.0, 0.0])
+        else:
+            # an orbiting object: position of the stated radius in a seed-phased direction (all three components
+            # non-zero), circular speed roughly along-track; covariance of the stated position sigma, velocity
+            # sigma 1e-3 /s of it, correlation 0.2 between a position and its rate
+            self.s = float(mag["sigma_km"])
+            radius = MAG_RADII_KM[mag["regime"]]
+            a2 = 0.9 + 0.13 * (seed % 19)
+            b2 = -0.3 + 0.05 * (seed % 11)
+            u = np.array([math.cos(a2) * math.cos(b2), math.sin(a2) * math.cos(b2), math.sin(b2)])
+            along = np.cross(np.array([0.0, 0.0, 1.0]), u)
+            along = along / np.linalg.norm(along)
+            speed = math.sqrt(MU_EARTH / radius)
+            vel = speed * (math.cos(0.1) * along + math.sin(0.1) * np.cross(u, along))
+            self.x0 = np.concatenate([radius * u, vel])
+            p0 = np.diag([1.0, 1.5, 0.8, 1e-6, 2e-6, 1.5e-6])
+            p0[0, 1] = p0[1, 0] = 0.2
+            p0[1, 2] = p0[2, 1] = -0.15
+            for i in range(3):
+                p0[i, 3 + i] = p0[3 + i, i] = 2e-4
+            self.p0 = p0 * self.s ** 2
+            self.q = np.diag([0.02, 0.02, 0.02, 2e-8, 2e-8, 2e-8]) * self.s ** 2
+        p0 = self.p0
         # sigma: position offset along d whose h2-innovation has Mahalanobis length 1 at the first update
         pm = self.f @ p0 @ self.f.T + self.q
-        s2 = _H["h2"] @ pm @ _H["h2"].T + _R["h2"]
+        s2 = _H["h2"] @ pm @ _H["h2"].T + _R["h2"] * self.s ** 2
         hd = _H["h2"][:, :3] @ self.d
         self.sigma = 1.0 / math.sqrt(float(hd @ np.linalg.solve(s2, hd)))
-        self.dvec = np.concatenate([self.d, np.zeros(3)]) * self.sigma
+        if cfg["layout"] == "vel1s":  # the hypotheses differ by a delta-v that moves them 1 sigma apart in one step
+            self.dvec = np.concatenate([np.zeros(3), self.d]) * (self.sigma / DT)
+        else:
+            self.dvec = np.concatenate([self.d, np.zeros(3)]) * self.sigma
         n = cfg["n"]
         self.offsets = self.layout_offsets(cfg["layout"], n)
         self.centres = np.array([self.x0 + o * self.dvec for o in self.offsets])
@@ -309,7 +374,7 @@ class System:
     def layout_offsets(layout, n):
         if layout == "same":
             return [0.0] * n
-        if layout == "1s":
+        if layout in ("1s", "vel1s"):
             return [float(i) for i in range(n)]
         if layout == "30s":
             return [30.0 * i for i in range(n)]
@@ -320,7 +385,7 @@ class System:
     def symbols(self, first):
         """Symbols of one step, merged when their truth offsets coincide; the first step is always observed."""
         out, seen = [], set()
-        for s in SYMBOLS:
+        for s in (MAG_SYMBOLS if self.cfg.get("mag") else SYMBOLS):
             if s == "0":
                 if not first:
                     out.append(s)
@@ -336,7 +401,7 @@ class System:
         seq = self.cfg.get("obs_seq")
         if seq:  # second family: the observation set of every step is spelled out by the configuration
             return seq[(step - 1) % len(seq)]
-        shapes = SHAPES_DIRECT if self.cfg["mode"] == "direct" else SHAPES_AGENT
+        shapes = SHAPES_DIRECT if self.cfg["mode"] in ("direct", "mag") else SHAPES_AGENT
         return shapes[(step + self.cfg["shape_shift"]) % len(shapes)]
 
     def truth(self, sym, t):
@@ -351,8 +416,8 @@ class System:
         obs, hs, rs, ys = [], [], [], []
         jd = JD_START + t / 86400.0
         for j, part in enumerate(_PARTS[self.shape(step)]):
-            h, r = _H[part], _R[part]
-            y = h @ s + _BIAS[part]
+            h, r = _H[part], _R[part] * self.s ** 2  # (s = 1.0 outside the magnitude family: bit-identical)
+            y = h @ s + _BIAS[part] * self.s
             obs.append(LinObs(h.copy(), r.copy(), y.copy(), jd, SENSOR + j, radar=(part in _RADAR_PARTS)))
             hs.append(h)
             rs.append(r)
@@ -391,12 +456,13 @@ class System:
 
 
 # ------------------------------------------------------------------------------------------------ configurations
-def _cfg(kind, n, layout, thr, pp, cov, mode, mix, seed, depth, shape_shift, via_results=False, obs_seq=None):
+def _cfg(kind, n, layout, thr, pp, cov, mode, mix, seed, depth, shape_shift, via_results=False, obs_seq=None,
+         mag=None):
     # resample is fixed to the repository default (False): with sigma-point redraw the per-model gain is the subject
     # of the open C06 finding F-C06-1 (stale sigma_x_res), which this check must not re-report
     return {"kind": kind, "n": n, "layout": layout, "thr": thr, "pp": pp, "cov": cov, "resample": False,
             "mode": mode, "mix": mix, "seed": seed, "depth": depth, "shape_shift": shape_shift, "via_results": via_results,
-            "obs_seq": obs_seq}
+            "obs_seq": obs_seq, "mag": mag}
 
 
 def _obs_seq(i0, depth):
@@ -489,8 +555,47 @@ def configs(tier, seed):
     return out
 
 
+def mag_configs(tier, seed):
+    """The magnitude lattice: estimator x orbit regime x position sigma x number of models, COMPLETE in both tiers;
+    inside one configuration (one work item) every hypothesis layout of MAG_LAYOUTS is explored, with the prior
+    probabilities, the per-model covariance variant and the predict path (in place | through the prediction result
+    object) rotating over the lattice so that each value meets each regime, sigma and estimator."""
+    out = []
+    k = 0
+    for kind in KINDS:
+        for regime in MAG_RADII_KM:
+            for sigma_km in MAG_SIGMAS_KM:
+                for n in MAG_NMODELS:
+                    k += 1
+                    out.append(_cfg(kind, n, "*", 1e-20, 0.997, "*", "mag", 1.5, seed, 2 if tier == "quick" else 3,
+                                    (k + seed) % 4, via_results=bool(k % 2),
+                                    mag={"regime": regime, "sigma_km": sigma_km, "rot": k + seed}))
+    return out
+
+
+def mag_variants(cfg):
+    """(layout, prior weights, covariance variant) combinations explored inside one magnitude configuration."""
+    rot = cfg["mag"]["rot"]
+    out = []
+    for li, layout in enumerate(MAG_LAYOUTS):
+        out.append((layout, MAG_WEIGHTS[(li + rot) % 3], ["same", "scaled"][(li + rot // 3) % 2]))
+    return out
+
+
+def mag_prior(name, n, rot):
+    if name == "uniform":
+        return np.ones(n) / n
+    if name == "graded":
+        w = np.arange(1, n + 1, dtype=float)
+        return w / w.sum()
+    w = np.full(n, 0.1 / (n - 1))
+    w[rot % n] = 0.9
+    return w
+
+
 def items(tier, seed):
     out = [("tree", c) for c in configs(tier, seed)]
+    out += [("tree", c) for c in mag_configs(tier, seed)]
     out.append(("stacking", seed))
     out.append(("mixmatrix", seed))
     return out
@@ -518,7 +623,23 @@ def bounds(tier, seed):
         "covariance_variants": ["same (real initialize)", "scaled (1, 1.5, 2 x P by model index mod 3)"],
         "sigma_point_redraw": False,
         "depths": sorted({(c["mode"], c["n"], c["depth"]) for c in cs}),
-        "configurations": len(cs),
+        "magnitude_family": {
+            "regime_radius_km": MAG_RADII_KM,
+            "model_position_sigma_km": MAG_SIGMAS_KM,
+            "velocity_sigma": "1e-3 / s of the position sigma",
+            "numbers_of_models": MAG_NMODELS,
+            "layouts": MAG_LAYOUTS,
+            "prior_probabilities": MAG_WEIGHTS,
+            "covariance_variants": ["same", "scaled"],
+            "observation_alphabet": MAG_SYMBOLS,
+            "depth": 2 if tier == "quick" else 3,
+            "checked_after": ["predict", "forecast (copy, step 2)", "update", "closure hand-back"],
+            "oracle": "exact rational mixture; allowance 4(n+2) eps sum w(|P|+|dd'|) + 4((n+1) eps)^2 SS'",
+            "x2_over_P_range": [float(min(MAG_RADII_KM.values())) ** 2 / max(MAG_SIGMAS_KM) ** 2,
+                                float(max(MAG_RADII_KM.values())) ** 2 / min(MAG_SIGMAS_KM) ** 2],
+            "configurations": len(mag_configs(tier, seed)),
+        },
+        "configurations": len(cs) + len(mag_configs(tier, seed)),
         "phase_seed": seed,
     }
 
@@ -554,6 +675,23 @@ def _wclose(a, b):
     if a.shape != b.shape or not np.all(np.isfinite(a)):
         return False
     return bool(np.all(np.abs(a - b) <= W_ABS + W_REL * np.abs(b)))
+
+
+def _rounding_close(got_x, got_p, w, xs, ps, mx, mp):
+    """Combined moments against the reference's centred float64 mixture (mx, mp) at ROUNDING level: both are float64
+    evaluations of the same centred formulae, each within orc.mixture_tolerance of the exact mixture, so they differ
+    by at most twice that element-wise allowance (eps * (n + 2) * (|P| + spread^2), no floor at 1 and nothing that
+    grows like eps |x|^2).  Returns (ok, worst error / allowance)."""
+    tol_x, tol_p, _ = orc.mixture_tolerance(w, xs, ps, mx)
+    worst = 0.0
+    for got, ref, tol in ((got_x, mx, tol_x), (got_p, mp, tol_p)):
+        if got is None:
+            continue
+        got = np.asarray(got, dtype=float)
+        if got.shape != np.shape(ref) or not np.all(np.isfinite(got)) or not np.all(np.isfinite(tol)):
+            return False, float("inf")
+        worst = max(worst, float(np.max(np.abs(got - ref) / (2.0 * tol + 1e-300))))
+    return worst <= 1.0, worst
 
 
 def _brief(v):
@@ -643,6 +781,9 @@ def check_predict(ctx, sysm, pre, af, t):
     o1, _ = _close(af.pred_x, mx)
     o2, _ = _close(af.pred_p, mp)
     ctx.case("predict/mixture", o1 and o2, observed={"pred_x": _brief(af.pred_x)}, expected={"pred_x": _brief(mx)})
+    o3, e3 = _rounding_close(af.pred_x, af.pred_p, w, [m.pred_x for m in models], [m.pred_p for m in models], mx, mp)
+    ctx.case("predict/mixture_rounding", o3, observed={"error_over_allowance": e3, "pred_p": _brief(af.pred_p)},
+             expected={"pred_p": _brief(mp)})
 
 
 # ------------------------------------------------------------------------------------------------ update checks
@@ -790,6 +931,10 @@ def check_update(ctx, sysm, mid, exp, af, obs, ystack, rstack, flag_check=True):
         ctx.case("mixture/covariance", o2, observed=_brief(af.est_p), expected=_brief(mp))
         o3 = _close(af.pred_x, px)[0] and _close(af.pred_p, pp)[0]
         ctx.case("mixture/prediction", o3, observed=_brief(af.pred_x), expected=_brief(px))
+        o4, e4 = _rounding_close(af.est_x, af.est_p, w, [m.est_x for m in models], [m.est_p for m in models], mx, mp)
+        o5, e5 = _rounding_close(af.pred_x, af.pred_p, w, [m.pred_x for m in models], [m.pred_p for m in models], px, pp)
+        ctx.case("mixture/rounding", o4 and o5, observed={"estimate_error_over_allowance": e4, "prediction_error_over_allowance": e5},
+                 expected="combined estimate / prediction within the rounding allowance of the centred mixture")
         okp, info = _psd(af.est_p)
         ctx.case("mixture/symmetric_psd", okp, observed=info, expected="asymmetry and lambda_min at rounding level")
         if observed:
@@ -910,11 +1055,16 @@ def probe_forecast(ctx, sysm, af, obs, hstack, rstack):
             break
     ctx.case("forecast/models_kalman_covariance", bad is None, observed=bad, expected="P+ = P- - K S K' per model")
     w = cp.model_weights
-    _, mp = orc.mixture(w, [m.est_x for m in models], [m.est_p for m in models])
+    ex, mp = orc.mixture(w, [m.est_x for m in models], [m.est_p for m in models])
     o1 = _close(cp.est_p, mp)[0]
     okp, info = _psd(cp.est_p)
     o2 = _close(cp.innov_cvr, sum(wi * m.innov_cvr for wi, m in zip(w, models)))[0]
     ctx.case("forecast/mixture_covariance", o1 and okp and o2, observed={"psd": info, "est_p": _brief(cp.est_p)}, expected=_brief(mp))
+    fx, fp = orc.mixture(w, [m.pred_x for m in models], [m.pred_p for m in models])
+    o3, e3 = _rounding_close(None, cp.est_p, w, [m.est_x for m in models], [m.est_p for m in models], ex, mp)
+    o4, e4 = _rounding_close(cp.pred_x, cp.pred_p, w, [m.pred_x for m in models], [m.pred_p for m in models], fx, fp)
+    ctx.case("forecast/mixture_rounding", o3 and o4, observed={"estimate_error_over_allowance": e3, "prediction_error_over_allowance": e4},
+             expected="forecast covariance / re-combined prediction within the rounding allowance of the centred mixture")
     fr = cp.getForecastResult()
     tgt = pickle.loads(pickle.dumps(af))
     fr.apply(tgt)
@@ -933,11 +1083,11 @@ class DirectDriver:
         self.handed = None
 
     # -- start: real factory + real initialize (first predict/update happen inside), or manual assembly
-    def start(self, obs):
+    def start(self, obs, prior=None):
         sysm, cfg = self.sysm, self.sysm.cfg
         nominal = sysm.nominal(T_START)
         sysm.arm()
-        if cfg["cov"] == "same":
+        if cfg["cov"] == "same" and not cfg.get("mag"):
             af = adaptiveEstimationFactory(sysm.mmae_config(), nominal, ScenarioTime(DT))
             started = af.initialize(obs, JulianDate(JD_START))
             if not started or af is None:
@@ -956,8 +1106,8 @@ class DirectDriver:
         for i, m in enumerate(af.models):
             m.est_p = sysm.model_cov(i, m.est_p)
         af.model_likelihoods = np.ones(n)
-        af.model_weights = np.ones(n) / n
-        af.mode_probabilities = np.ones(n) / n
+        af.model_weights = np.ones(n) / n if prior is None else np.array(prior, dtype=float)
+        af.mode_probabilities = np.ones(n) / n if prior is None else np.array(prior, dtype=float)
         self.af = af
         return "manual"
 
@@ -1399,6 +1549,180 @@ def explore_agent(res, cfg, item):
     recurse(drv0.dump(), [], 0.0, True)
 
 
+# ------------------------------------------------------------------------------------------------ magnitude family
+def _moments_case(ctx, sub, got_x, got_p, w, xs, ps, nontrivial_ref):
+    """Combined mean / covariance against the EXACT moment-matched mixture of the real models (rational arithmetic),
+    with the element-wise rounding allowance of a centred float64 evaluation (orc.mixture_tolerance: eps * B * (n + 2)
+    with B ~ |P| + spread^2 - never eps |x|^2), plus symmetry and positive semi-definiteness at that level."""
+    mx, mp = orc.mixture_exact(w, xs, ps)
+    tol_x, tol_p, _ = orc.mixture_tolerance(w, xs, ps, mx)
+    tiny = 1e-300
+    extra = {"moment": sub}
+    # non-trivial iff the case can tell a centred evaluation from a one-pass one: the cancellation loss eps |x|^2 of
+    # the largest state component is >= 100 x the allowance of the matching diagonal element
+    i_top = int(np.argmax(np.abs(mx)))
+    nt = bool(float(np.finfo(float).eps) * mx[i_top] ** 2 >= 100.0 * tol_p[i_top, i_top]) and nontrivial_ref
+    if got_x is not None:
+        gx = np.asarray(got_x, dtype=float)
+        ok = gx.shape == mx.shape and bool(np.all(np.isfinite(gx))) and bool(np.all(np.abs(gx - mx) <= tol_x + tiny))
+        ctx.case(f"magnitude/{sub}/mean", ok, sig=f"magnitude/{sub}/mean", extra=extra, nontrivial=nt,
+                 observed=_brief(gx), expected={"mean": _brief(mx), "allowance": _brief(tol_x)})
+    gp = np.asarray(got_p, dtype=float)
+    if gp.shape != mp.shape or not np.all(np.isfinite(gp)):
+        ctx.case(f"magnitude/{sub}/covariance", False, sig=f"magnitude/{sub}/covariance", extra=extra, nontrivial=nt,
+                 observed=_brief(gp), expected=_brief(mp))
+        return
+    excess = np.abs(gp - mp) / (tol_p + tiny)
+    i, j = np.unravel_index(int(np.argmax(excess)), excess.shape)
+    ok = bool(excess[i, j] <= 1.0)
+    ctx.case(f"magnitude/{sub}/covariance", ok, sig=f"magnitude/{sub}/covariance", extra=extra, nontrivial=nt,
+             observed={"element": [int(i), int(j)], "value": float(gp[i, j]), "error_over_allowance": float(excess[i, j]),
+                       "relative_deviation": float(np.max(np.abs(gp - mp)) / max(float(np.max(np.abs(mp))), tiny))},
+             expected={"value": float(mp[i, j]), "allowance": float(tol_p[i, j])},
+             outcome="moments_ok" if ok else "moments_off")
+    # symmetric PSD: the exact mixture of the models' covariances is as symmetric / as definite as they are; the
+    # float result may fall short by the element allowances (||E||_2 <= ||tol||_F) and by the eigen-solver's own
+    # backward error (32 eps ||P||_F covers both eigvalsh calls)
+    eps = float(np.finfo(float).eps)
+    asym = np.abs(gp - gp.T) - np.abs(mp - mp.T) - tol_p - tol_p.T
+    lam = float(np.min(np.linalg.eigvalsh(0.5 * (gp + gp.T))))
+    lam_ref = float(np.min(np.linalg.eigvalsh(0.5 * (mp + mp.T))))
+    slack = float(np.linalg.norm(tol_p)) + 32.0 * eps * float(np.linalg.norm(mp))
+    ok_s = bool(np.all(asym <= tiny)) and lam >= min(0.0, lam_ref) - slack
+    ctx.case(f"magnitude/{sub}/symmetric_psd", ok_s, sig=f"magnitude/{sub}/symmetric_psd", extra=extra, nontrivial=nt,
+             observed={"lambda_min": lam, "asymmetry": float(np.max(np.abs(gp - gp.T)))},
+             expected={"lambda_min_of_mixture": lam_ref, "slack": slack})
+    ctx.res.observe(gp)
+
+
+def mag_step(ctx, sysm, drv, sym, step, t, probe):
+    """predict to t, (forecast probe on a copy,) update: after EACH operation the combined moments of the real filter
+    against the exact mixture of its own models and probabilities; probabilities against Bayes' rule evaluated from
+    the models' own innovations.  Returns True when the history ends here."""
+    cfg = ctx.cfg
+    af = drv.filter()
+    pre = snapshot(af)
+    try:
+        drv.predict(t)
+    except Exception as exc:  # noqa: BLE001
+        ctx.case("magnitude/predict/raises", False, sig="magnitude/predict/raises/" + type(exc).__name__,
+                 observed=f"{type(exc).__name__}: {exc}"[:300], expected="predict does not raise", nontrivial=True)
+        return True
+    af = drv.filter()
+    models = _models_of(af)
+    ok_book = ([m.verif_tag for m in models] == pre["tags"] and float(af.time) == t
+               and np.array_equal(af.model_weights, pre["w"]) and all(float(m.time) == t for m in models))
+    ctx.case("magnitude/predict/bookkeeping", ok_book, observed={"n": len(models), "time": float(af.time)},
+             expected={"n": len(pre["tags"]), "time": t}, nontrivial=True)
+    if not ok_book:
+        return True
+    w = np.asarray(af.model_weights, dtype=float)
+    _moments_case(ctx, "predict", af.pred_x, af.pred_p, w, [m.pred_x for m in models], [m.pred_p for m in models], True)
+    mid = snapshot(af)
+    obs, hstack, rstack, ystack = sysm.observations(sym, step, t)
+    if probe and obs:
+        cp = pickle.loads(pickle.dumps(af))
+        cp.forecast(obs)
+        cm = _models_of(cp)
+        cw = np.asarray(cp.model_weights, dtype=float)
+        _moments_case(ctx, "forecast_prediction", cp.pred_x, cp.pred_p, cw, [m.pred_x for m in cm], [m.pred_p for m in cm], True)
+        _moments_case(ctx, "forecast", None, cp.est_p, cw, [m.est_x for m in cm], [m.est_p for m in cm], True)
+    held = list(models)  # the model objects are updated in place; pruned ones stay reachable here
+    try:
+        post = drv.update(obs)
+    except Exception as exc:  # noqa: BLE001
+        ctx.case("magnitude/update/raises", False, sig="magnitude/update/raises/" + type(exc).__name__,
+                 observed=f"{type(exc).__name__}: {exc}"[:300], expected="update does not raise", nontrivial=True)
+        return True
+    if obs:
+        loglik = [orc.log_gauss(np.asarray(m.innovation, dtype=float), np.asarray(m.innov_cvr, dtype=float)) for m in held]
+        nis = [float(m.nis) for m in held]
+        ydim = len(ystack)
+    else:
+        loglik, nis, ydim = None, None, mid["ydim"]
+    if cfg["kind"] == "smm":
+        exp = orc.smm_step(mid["w"], loglik, nis, ydim, cfg["thr"], cfg["pp"], stale_nis=mid["nis"])
+    else:
+        exp = orc.gpb1_step(mid["mu"], loglik, nis, ydim, cfg["pp"], cfg["mix"])
+    models = _models_of(post)
+    tags = [getattr(m, "verif_tag", None) for m in models]
+    w = np.asarray(post.model_weights, dtype=float)
+    okw = _valid_prob(w) and len(w) == len(models) >= 1
+    ctx.case("magnitude/update/weights_valid", okw, observed=_brief(w), expected="finite, >= 0, sum = 1 (1e-12), one per model",
+             nontrivial=True)
+    if not okw:
+        return True
+    decided = not exp["boundary"] and not exp["prune_all"]
+    if not decided:
+        ctx.res.either_way += 1
+    else:
+        want_tags = [mid["tags"][i] for i in exp["survivors"]]
+        want_w = exp["w_final"] if exp["w_final"] is not None else mid["w"]
+        ok_b = tags == want_tags and _wclose(w, want_w)
+        ctx.case("magnitude/update/weights_bayes", ok_b, observed={"tags": tags, "w": _brief(w)},
+                 expected={"tags": want_tags, "w": _brief(want_w)}, nontrivial=True,
+                 outcome=("reset" if exp["reset"] else "regular") + "+" + exp["reason"])
+        if not ok_b:
+            return True
+    _moments_case(ctx, "update_estimate", post.est_x, post.est_p, w, [m.est_x for m in models], [m.est_p for m in models], True)
+    _moments_case(ctx, "update_prediction", post.pred_x, post.pred_p, w, [m.pred_x for m in models], [m.pred_p for m in models], True)
+    closed = CLOSE in post.flags or post.converged_filter is not None
+    if decided:
+        ok_c = closed == exp["closed"] and (post.converged_filter is not None) == exp["closed"]
+        ctx.case("magnitude/closure/decision", ok_c, observed={"closed": closed}, nontrivial=True,
+                 expected={"closed": exp["closed"], "reason": exp["reason"], "gate": exp["gate"]}, outcome=exp["reason"])
+    if closed and post.converged_filter is not None:
+        cf = post.converged_filter
+        # the filter handed back carries the surviving model (SMM: one model of weight one) / the merged estimate
+        # (GPB1): the same exact mixture, the same allowance
+        if cfg["kind"] == "smm":
+            ctx.case("magnitude/closure/one_survivor", len(models) == 1, observed=len(models), expected=1, nontrivial=True)
+        _moments_case(ctx, "handed_back_estimate", cf.est_x, cf.est_p, w, [m.est_x for m in models], [m.est_p for m in models], True)
+        _moments_case(ctx, "handed_back_prediction", cf.pred_x, cf.pred_p, w, [m.pred_x for m in models], [m.pred_p for m in models], True)
+    return closed
+
+
+def explore_mag(res, cfg, item):
+    """All histories over MAG_SYMBOLS (first step observed) up to the depth, for every (layout, prior, covariance)
+    variant of the configuration, on the hand-assembled real filter (assembled as initialize() does)."""
+    via = bool(cfg["via_results"])
+    seen = set()
+    for layout, prior, cov in mag_variants(cfg):
+        vcfg = dict(cfg, layout=layout, cov=cov)
+        sysm = System(vcfg)
+        ctx = Ctx(res, vcfg, item)
+        ctx.base.update({"regime": cfg["mag"]["regime"], "sigma_km": cfg["mag"]["sigma_km"], "prior": prior,
+                         "radius_km": MAG_RADII_KM[cfg["mag"]["regime"]]})
+        depth = cfg["depth"]
+        w0 = mag_prior(prior, cfg["n"], cfg["mag"]["rot"])
+
+        def visit(drv):
+            key = (layout, _state_key(drv.af))
+            if key not in seen:
+                seen.add(key)
+                res.states += 1
+
+        def recurse(blob, hist, t):
+            first = not hist
+            for sym in sysm.symbols(first=first):
+                drv = DirectDriver(sysm, via)
+                drv.load(blob)
+                ctx.hist = hist + [sym]
+                step = len(hist) + 1
+                ctx.obs_set = None if sym == "0" else sysm.shape(step)
+                closed = mag_step(ctx, sysm, drv, sym, step, t, probe=(step == 2))
+                res.transitions += 1
+                visit(drv)
+                if closed or step >= depth:
+                    res.traces += 1
+                else:
+                    recurse(drv.dump(), hist + [sym], t + DT)
+
+        drv0 = DirectDriver(sysm, via)
+        drv0.start([], prior=w0)
+        recurse(drv0.dump(), [], T_START)
+
+
 # ------------------------------------------------------------------------------------------------ small lattices
 class _M:
     def __init__(self, px, ex):
@@ -1476,6 +1800,8 @@ def run_item(item):
         cfg = _norm_cfg(item[1])
         if cfg["mode"] == "direct":
             explore_direct(res, cfg, ("tree", cfg))
+        elif cfg["mode"] == "mag":
+            explore_mag(res, cfg, ("tree", cfg))
         else:
             explore_agent(res, cfg, ("tree", cfg))
         res.observe(res.evaluations, res.states, res.transitions, res.traces, sorted(res.outcomes.items()))
